@@ -191,7 +191,9 @@ def main(argv):
     findings = C.load_findings(mod.ID)
     own_ids = {f["id"] for f in findings}
     for o in borrowed:
-        findings = findings + [f for f in C.load_findings(o.ID) if f["id"] not in own_ids]
+        for f in C.load_findings(o.ID):
+            # the sibling's findings apply to the sibling's operations; an id shared with an own finding is kept apart
+            findings = findings + [dict(f, id=(f["id"] + "@" + o.ID) if f["id"] in own_ids else f["id"])]
     new_failures = []
     for f in run.failures:
         k = C.match_finding(findings, f["line"], f["impl"], f)
